@@ -128,7 +128,28 @@ func init() {
 				}
 				d.PES.Data, _ = withSpare(d.PES.Data)
 				payloadBefore := append([]byte{}, d.PES.Data[:cap(d.PES.Data)]...)
+				// the other byte slices the caller owns sit in larger buffers too: private data of the PES extension and of
+				// the adaptation field, extension 2 data
+				var others []*[]byte
+				if d.PES.Header != nil && d.PES.Header.OptionalHeader != nil {
+					others = append(others, &d.PES.Header.OptionalHeader.PrivateData, &d.PES.Header.OptionalHeader.Extension2Data)
+				}
+				if d.AdaptationField != nil && !(op.Reuse && lastAF != nil) {
+					others = append(others, &d.AdaptationField.TransportPrivateData)
+				}
+				var othersBefore [][]byte
+				for _, o := range others {
+					if *o != nil {
+						*o, _ = withSpare(*o)
+					}
+					othersBefore = append(othersBefore, append([]byte{}, (*o)[:cap(*o)]...))
+				}
 				call("data", func() (int, error) { return m.WriteData(&d) })
+				for k, o := range others {
+					if !bytes.Equal(othersBefore[k], (*o)[:cap(*o)]) {
+						payloadOK = false
+					}
+				}
 				d.PES.Data = d.PES.Data[:cap(d.PES.Data)]
 				lastAF = d.AdaptationField
 				if !bytes.Equal(payloadBefore, d.PES.Data) {
